@@ -219,7 +219,9 @@ fn build<'a>(cfg: &Cfg, forced: Vec<(u32, u32)>) -> World<'a> {
     let sink = Sink { fail: cfg.fail, short_writes: cfg.short_writes, st: st.clone() };
     let writer = match cfg.capacity {
         Some(c) => DeferredWriter::verif_with_capacity(Box::new(sink), c),
-        None => DeferredWriter::from_write(sink),
+        // both public constructors: the generic one for the accepting sink, the boxed one otherwise
+        None if matches!(cfg.fail, Fail::None) => DeferredWriter::from_write(sink),
+        None => DeferredWriter::from_boxed_dyn_write(Box::new(sink)),
     };
     World { writer: Some(writer), sink: st, stream: Vec::new(), ever_failed: false, post_panic: false }
 }
